@@ -17,6 +17,7 @@ RULE = (
     'voxel pairs for monotonicity (via sorting).  Non-trivial = at least 2 visited and 1 unvisited voxel; distinct '
     '= SHA-1 of (grid, temperature).'
 )
+RULE += ' Added in rounds 6-8: nearly normalised densities; -0.0 voxels; another temperature asked of the same Volume; result retention.'
 ASSUMPTIONS = ['k_B = 1.380649e-23 / 1.602176634e-19 eV/K (exact SI); relative tolerance 1e-9']
 N_CASES = {'quick': 640, 'thorough': 100000}
 BUDGET_S = {'quick': 200, 'thorough': 3600}
